@@ -522,8 +522,8 @@ Proof.
     + destruct (k =? 0); [|destruct (k =? 1)]; apply inv_escape, Hc.
   - (* OProbes *) apply touch_sim; auto. apply inv_helpers, inv_add_helpers, Hc.
   - (* OHooks *) apply touch_sim; auto.
-    + destruct (N.odd m); destruct (N.odd (m / 2)); reflexivity.
-    + destruct (N.odd m); destruct (N.odd (m / 2)); auto using inv_add_helpers.
+    + destruct (N.odd m); destruct (N.odd (m / 2)); destruct (N.odd (m / 4)); reflexivity.
+    + destruct (N.odd m); destruct (N.odd (m / 2)); destruct (N.odd (m / 4)); auto using inv_add_helpers.
   - (* OMacros *) apply touch_sim; auto. apply inv_add_helpers, Hc.
   - (* OClone *) split.
     + unfold abs_world at 1. cbn [w_a w_b w_sel w_files option_map]. rewrite abs_cur. reflexivity.
